@@ -633,5 +633,8 @@ def run(ctx):
     ctx.rule('C04.STATEREC', lambda: rule_staterec(ctx), 6)
     ctx.rule('C04.WHO', lambda: rule_who(ctx)[0], 9)
     ctx.rule('C04.STATEALIAS', lambda: rule_statealias(ctx), 2)
+    # files are written ahead of the commit: readers must clip to the committed height or they serve the residue
+    from . import c10
+    ctx.rule('C04.BYHEIGHT', lambda: c10.rule_byheight(ctx, 'C04.BYHEIGHT'), 2)
     ctx.rule('C04.WHO-control', lambda: positive_control_who(ctx))
     ctx.note(f'inlined effect graph of DB.flush_dbs: {ig.stats()}')
